@@ -180,9 +180,9 @@ AllEqOK(e, ln) ==
 \* a large round on every engine: identical digests over all recovery shards, right number of shards
 XencOK(e) ==
   /\ Supports(e.rate, e.k, e.r)
-  /\ Cardinality(DOMAIN e.digs) >= 2 /\ "naive" \in DOMAIN e.digs
-  /\ \A g \in DOMAIN e.digs : e.digs[g] = e.digs["naive"]
-  /\ \E t \in 1..6 : SubSeq(e.digs["naive"], 1, t) = ToString(e.r) \o ":"
+  /\ Cardinality(DOMAIN e.digs) >= 2
+  /\ \A g, h \in DOMAIN e.digs : e.digs[g] = e.digs[h]
+  /\ \A g \in DOMAIN e.digs : \E t \in 1..6 : SubSeq(e.digs[g], 1, t) = ToString(e.r) \o ":"
 
 EventOK(e, ln) ==
   CASE e.ev = "enc"  -> EncOK(e)
